@@ -246,29 +246,36 @@ class CSSImportRule(cssrule.CSSRule):
 
             # set all
             if ok:
-                # may raise (keyword spelled in a way atkeyword rejects): first
+                if new['media']:
+                    newmedia = new['media']
+                else:
+                    # must be all for @import
+                    newmedia = css_parser.stylesheets.MediaList(mediaText='all')
+
+                # may raise (exceptions enabled and a syntax error in the
+                # imported sheet): load before anything is committed
+                importedSheet, hrefFound = self._loadImport(
+                    new['href'], newmedia, new['name'])
+
+                # may raise (keyword spelled in a way atkeyword rejects)
                 self.atkeyword = new['keyword']
                 self._setSeq(newseq)
 
                 self.hreftype = new['hreftype']
                 self.name = new['name']
-
-                if new['media']:
-                    self.media = new['media']
-                else:
-                    # must be all for @import
-                    self.media = css_parser.stylesheets.MediaList(mediaText='all')
-
-                # needs new self.media
-                self.href = new['href']
+                self.media = newmedia
+                self._commitHref(new['href'], importedSheet, hrefFound)
 
     cssText = property(fget=_getCssText, fset=_setCssText,
                        doc="(DOM) The parsable textual representation of this rule.")
 
-    def _setHref(self, href):
-        # the imported sheet is loaded first: with exceptions enabled a
-        # syntax error in it is raised and must leave this rule unchanged
-        importedSheet = css_parser.css.CSSStyleSheet(media=self.media, ownerRule=self, title=self.name)
+    def _loadImport(self, href, media, title):
+        """Load the style sheet `href` refers to, to be used with `media`
+        and `title`. Returns ``(importedSheet, hrefFound)``. This rule itself
+        is not modified: with exceptions enabled a syntax error in the
+        imported sheet is raised from here and must leave the rule unchanged.
+        """
+        importedSheet = css_parser.css.CSSStyleSheet(media=media, ownerRule=self, title=title)
         hrefFound = False
         # set styleSheet
         if href and self.parentStyleSheet:
@@ -327,6 +334,10 @@ class CSSImportRule(cssrule.CSSRule):
                 # used by resolveImports if to keep unprocessed href
                 hrefFound = True
 
+        return importedSheet, hrefFound
+
+    def _commitHref(self, href, importedSheet, hrefFound):
+        "Set `href` and the sheet loaded for it, nothing here raises."
         # set new href
         self._href = href
         # update seq
@@ -337,6 +348,11 @@ class CSSImportRule(cssrule.CSSRule):
                 break
         self.hrefFound = hrefFound
         self._styleSheet = importedSheet
+
+    def _setHref(self, href):
+        # the imported sheet is loaded first, see _loadImport
+        importedSheet, hrefFound = self._loadImport(href, self.media, self.name)
+        self._commitHref(href, importedSheet, hrefFound)
 
     _href = None  # needs to be set
     href = property(lambda self: self._href, _setHref,
